@@ -214,14 +214,27 @@ Definition emit (acc : list part) (pt : part) : list part :=
     end
   end.
 
-(* linepart::array::apply, loop over the existing parts ([old] = current, [olds] = base[pos+1..]) *)
+(* linepart::array::apply, loop over the existing parts ([old] = current, [olds] = base[pos+1..]).
+   This is the loop AS PATCHED by docs/C18_merge_cut_trim.diff and docs/C18_short_dimension.diff (the branches the
+   patches change are reached only when a SECOND dimension is applied to parts that carry cut/trim fractions or
+   undrawn points, or when a dimension has fewer values than the parts cover; set(n)+apply() for one dimension -
+   [run_merged] - takes the same path before and after the patches):
+     - the visible points of [old] are limited to the remaining data first (its trim then no longer applies; a
+       leading clipped point alone is not drawn);
+     - the cut of [old] is taken over only by a part that draws something, its trim only by a part that ends on
+       the same point (usr equal); a remainder without visible points keeps no trim. *)
 Fixpoint merge (fuel : nat) (r : option range) (old : part) (olds : list part)
          (val : list Q) (len : Z) (acc : list part) {struct fuel} : run_res :=
   match fuel with
   | O => OutOfFuel
   | S f =>
-    if (usr old =? 0) || (len =? 0) then
-      let pt := old in
+    let old0 :=
+      if len <? usr old then
+        let u := if negb (cut old =? 0) && (len <? 2) then 0 else wrap16 len in
+        mkpart (raw old) u (if u =? 0 then 0 else cut old) 0
+      else old in
+    if usr old0 =? 0 then
+      let pt := old0 in
       let val' := if raw pt <? len then zskip (raw pt) val else val in
       let len' := if raw pt <? len then len - raw pt else 0 in
       let acc' := emit acc pt in
@@ -230,17 +243,19 @@ Fixpoint merge (fuel : nat) (r : option range) (old : part) (olds : list part)
       | o :: os => merge f r o os val' len' acc'
       end
     else
-      let old1 := if len <? usr old then mkpart (raw old) (wrap16 len) (cut old) (trim old) else old in
-      match linepart_linear r val (usr old1) with
+      match linepart_linear r val (usr old0) with
       | Fault => RFault
       | Ok pt0 =>
-        let pt1 := if cut pt0 <? cut old1 then mkpart (raw pt0) (usr pt0) (cut old1) (trim pt0) else pt0 in
-        if raw pt1 <? raw old1 then
-          let old2 := mkpart (wrap16 (raw old1 - raw pt1)) (wrap16 (usr old1 - raw pt1)) 0 (trim old1) in
-          merge f r old2 olds (zskip (raw pt1) val) (len - raw pt1) (emit acc pt1)
+        let pt1 := if negb (usr pt0 =? 0) && (cut pt0 <? cut old0)
+                   then mkpart (raw pt0) (usr pt0) (cut old0) (trim pt0) else pt0 in
+        let pt2 := if (usr pt1 =? usr old0) && (trim pt1 <? trim old0)
+                   then mkpart (raw pt1) (usr pt1) (cut pt1) (trim old0) else pt1 in
+        if raw pt2 <? raw old0 then
+          let u := wrap16 (usr old0 - raw pt2) in
+          let old2 := mkpart (wrap16 (raw old0 - raw pt2)) u 0 (if u =? 0 then 0 else trim old0) in
+          merge f r old2 olds (zskip (raw pt2) val) (len - raw pt2) (emit acc pt2)
         else
-          let pt2 := if raw old1 <? raw pt1 then mkpart (raw old1) (usr pt1) (cut pt1) (trim pt1) else pt1 in
-          let pt3 := if trim pt2 <? trim old1 then mkpart (raw pt2) (usr pt2) (cut pt2) (trim old1) else pt2 in
+          let pt3 := if raw old0 <? raw pt2 then mkpart (raw old0) (usr pt2) (cut pt2) (trim pt2) else pt2 in
           match olds with
           | [] => Done (rev (emit acc pt3))
           | o :: os => merge f r o os (zskip (raw pt3) val) (len - raw pt3) (emit acc pt3)
